@@ -566,9 +566,14 @@ def compile (s : St) (op : Op) : Option (List Mi) :=
       else none
     | none => none
   | .rmsent k =>
-    if k < nSents && !isNumRoot s (rSent k) then
-      some [.take (.root (rSent k)), .free, .allocd (-2), .distinct (-1)]
-    else none
+    -- remove_action needs the owner: applicable while the owner is still reachable through its handle
+    match slotCell s (rSent k) with
+    | some (_, sc) =>
+      let reachable := (List.range nObjs).any (fun o => match objCell s o with
+        | some (c, _) => c == sc.tag
+        | none => false)
+      if k < nSents && reachable then some [.take (.root (rSent k)), .free, .allocd (-2), .distinct (-1)] else none
+    | none => none
   | .err _ _ => none
   | .efun _ _ _ => none
 
